@@ -169,6 +169,8 @@ def run(ctx):
             ctx.report(r_rem, fname, "%s can return successfully after the %s has been resolved without having removed it (a path from line %s to the return bypasses StoreFor::remove): the item survives a removal that reported success, and what was cleaned up around it (its key, its index rows) now dangles" % (fname, kind, b.blocks[last_th]["t"].get("line")), b.file, b.blocks[last_th]["t"].get("line"))
     ctx.floor(r_rem, n_rem, 2, "removal routines")
 
+    presence_rule(ctx, prog)
+
     # ---------------- DEDUP
     r_dedup = ctx.rule("C02.DEDUP", "a cascade that gathers annotation handles from several index rows removes each annotation once (a set), or tolerates repeats (presence test before each removal)")
     n_dd = 0
@@ -287,7 +289,7 @@ def run(ctx):
     for lp in find(qm.body, "for"):
         it = unparse(strip(lp["iter"]))
         if it in decls:
-            rem = [m["method"] for m in walk(lp["body"]) if m.get("k") == "mcall" and m["method"] in ("remove", "remove_key", "remove_data", "remove_annotation", "remove_resource", "remove_dataset")]
+            rem = [m["method"] for m in walk(lp["body"]) if m.get("k") == "mcall" and m["method"] in ("remove", "remove_key", "remove_data", "remove_annotation", "remove_resource", "remove_dataset", "remove_annotation_if_present")]
             consumed[it] = rem
     for nm in sorted(decls):
         r_route.hit(nm, sample={"collection": nm, "filled": nm in pushed, "consumed_by": consumed.get(nm)})
@@ -524,3 +526,53 @@ def revisit_rule(ctx, syn):
         if not re.search(r"if .*has\(self,handle\)", src.replace(" ", "")) and "has(" not in src:
             ctx.report(r, "helper-unguarded", "remove_annotation_if_present no longer tests presence before removing", helper[0].file, helper[0].line)
     ctx.floor(r, n, 6, "cascade removals of snapshot members")
+
+
+# ---------------------------------------------------------------------- PRESENT
+def presence_rule(ctx, prog):
+    """In a loop that removes annotations, the removal of one annotation cascades to the annotations that depend on it.
+    A handle taken from a list made before the loop may therefore be dead when its turn comes: an access that requires
+    presence (StoreFor::<Annotation>::remove / get / get_mut propagated with `?`) aborts the whole operation half-way."""
+    r = ctx.rule("C02.PRESENT", "inside a loop in which annotations are removed, no annotation handle from a list made earlier is accessed or removed with `?` unless the same iteration has established that it is still present (has() / a successful get) with no removal in between")
+    ANN = "annotation::Annotation"
+
+    def is_ann(t, names):
+        d, res, info = mirq.callee_of(t)
+        return bool(d and re.search(r"^store::StoreFor::(%s)$" % "|".join(names), d) and len(info.get("ga") or []) > 1 and info["ga"][1] == ANN)
+    n = 0
+    for bid, b in sorted(prog.bodies.items()):
+        if b.d.get("derived"):
+            continue
+        calls = list(b.calls())
+        removers = [bi for bi, t in calls if not b.blocks[bi].get("cleanup") and (re.search(r"^store::StoreFor::remove$", mirq.callee_of(t)[0] or "") or re.search(r"AnnotationStore::(remove_annotation_if_present|remove_annotation|remove_resource|remove_dataset|remove_data|remove_key)$", mirq.callee_of(t)[0] or ""))]
+        if not removers:
+            continue
+        for bi, t in calls:
+            if b.blocks[bi].get("cleanup") or not is_ann(t, ("remove", "get", "get_mut")) or not b.can_reach(bi, bi):
+                continue
+            # is the result propagated with `?` (next call is Try::branch on the destination)?
+            tgt = t.get("target")
+            nxt = b.blocks[tgt]["t"] if tgt is not None else None
+            if not (nxt and nxt["t"] == "call" and (mirq.callee_of(nxt)[0] or "").endswith("Try::branch")):
+                continue
+            before = [x for x in removers if x == bi or b.can_reach(x, bi)]
+            if not before:
+                continue
+            n += 1
+            key_h = b.key_of_operand(t["args"][1]).lstrip("&*") if len(t.get("args", [])) > 1 else "?"
+            # established present in this iteration: a dominating has()/get()/get_mut() on the same handle with no remover in between
+            ok = False
+            for gi, g in calls:
+                if gi == bi or not b.dominates(gi, bi) or not is_ann(g, ("has", "get", "get_mut")):
+                    continue
+                if len(g.get("args", [])) < 2 or b.key_of_operand(g["args"][1]).lstrip("&*") != key_h:
+                    continue
+                between = [x for x in removers if x not in (gi, bi) and b.can_reach(gi, x, avoid={bi}) and b.can_reach(x, bi, avoid={gi})]
+                if not between:
+                    ok = True
+            name = (mirq.callee_of(t)[0] or "").split("::")[-1]
+            k = "%s|%s(%s)" % (bid, name, key_h)
+            r.hit(k, sample={"in": bid, "access": name, "handle": key_h, "established_present": ok})
+            if not ok:
+                ctx.report(r, k, "%s calls StoreFor::<Annotation>::%s(%s)? inside a loop in which annotations are removed: when an earlier removal has cascaded to this annotation (it depends on one removed before it) the call fails and the operation stops half-way, leaving the store partly changed" % (bid, name, key_h), b.file, t.get("line"))
+    ctx.floor(r, n, 1, "presence-requiring accesses inside removal loops")
